@@ -74,9 +74,10 @@ class MemoryStorageBackend(StorageBackend):
         results = []
         for fn_ref_with_arg_hash in fns:
             try:
-                memento_dict = self.mementos[
-                    fn_ref_with_arg_hash.fn_reference.qualified_name
-                ]
+                # (.get: looking a function up must not create an entry for it)
+                memento_dict = self.mementos.get(
+                    fn_ref_with_arg_hash.fn_reference.qualified_name, {}
+                )
                 memento = memento_dict.get(fn_ref_with_arg_hash.arg_hash)
             except FunctionNotFoundError:
                 memento = None
@@ -101,7 +102,7 @@ class MemoryStorageBackend(StorageBackend):
     ) -> bytes:
         # Ignore retry_on_none since the in-memory metadata store is consistent.
         memento_key = self._get_memento_key(fn_with_arg_hash)
-        metadata_dict = self.metadata[memento_key]  # type: Dict[str, bytes]
+        metadata_dict = self.metadata.get(memento_key, {})  # type: Dict[str, bytes]
         return metadata_dict.get(key)
 
     def write_metadata(
@@ -130,12 +131,15 @@ class MemoryStorageBackend(StorageBackend):
         )
 
     def list_functions(self) -> List[FunctionReference]:
+        # Only functions that have at least one memoized call
         return [
-            FunctionReference.from_qualified_name(key) for key in self.mementos.keys()
+            FunctionReference.from_qualified_name(key)
+            for (key, memento_dict) in self.mementos.items()
+            if memento_dict
         ]
 
     def list_mementos(self, fn: FunctionReference, limit: int = None) -> List[Memento]:
-        return list(self.mementos[fn.qualified_name].values())[0:limit]
+        return list(self.mementos.get(fn.qualified_name, {}).values())[0:limit]
 
     def memoize(self, key_override: str, memento: Memento, result: object) -> None:
         if self.read_only:
@@ -159,7 +163,7 @@ class MemoryStorageBackend(StorageBackend):
         qualified_name = fn_with_arg_hash.fn_reference.qualified_name
         arg_hash = fn_with_arg_hash.arg_hash
         memento_key = qualified_name + "/" + arg_hash
-        memento_dict = self.mementos[qualified_name]
+        memento_dict = self.mementos.get(qualified_name, {})
         if arg_hash in memento_dict:
             del memento_dict[arg_hash]
         if memento_key in self.result:
@@ -182,7 +186,7 @@ class MemoryStorageBackend(StorageBackend):
             self.forget_call(
                 memento.invocation_metadata.fn_reference_with_args.fn_reference_with_arg_hash()
             )
-        self.mementos[qualified_name].clear()
+        self.mementos.pop(qualified_name, None)
 
     def to_dict(self):
         config = {"type": "memory"}
